@@ -8,10 +8,13 @@ import (
 	"bytes"
 	"fmt"
 	"math/rand"
+	"net"
 	"os"
 	"path/filepath"
 	"runtime"
+	"sort"
 	"strconv"
+	"strings"
 	"sync"
 	"time"
 
@@ -135,10 +138,25 @@ type SessionResult struct {
 	Log      []string
 }
 
+// LockOpt are the optional knobs of RunLockstepOpt.
+type LockOpt struct {
+	Chunk    int
+	KeepResp bool
+	NoFence  bool // do not send the model's own final fence request
+	// OnStep, if set, is called after every request with its start and end instants.
+	OnStep func(i int, r wire.Req, t0, t1 time.Time)
+	Local  net.Addr
+}
+
 // RunLockstep drives one session in lock-step under the oracle.
 func RunLockstep(addr string, w *model.World, reqs []wire.Req, watchdog time.Duration, chunk int, keepResp bool) SessionResult {
+	return RunLockstepOpt(addr, w, reqs, watchdog, LockOpt{Chunk: chunk, KeepResp: keepResp})
+}
+
+func RunLockstepOpt(addr string, w *model.World, reqs []wire.Req, watchdog time.Duration, opt LockOpt) SessionResult {
+	chunk, keepResp := opt.Chunk, opt.KeepResp
 	res := SessionResult{ClosedAt: -1, FailAt: -1}
-	c, err := wire.Dial(addr, nil, watchdog)
+	c, err := wire.Dial(addr, opt.Local, watchdog)
 	if err != nil {
 		res.Fail = &model.Fail{Rule: "dial", Feature: "connect", Detail: err.Error(), Inconclusive: true}
 		return res
@@ -150,7 +168,11 @@ func RunLockstep(addr string, w *model.World, reqs []wire.Req, watchdog time.Dur
 	res.Oracle = o
 	for i, r := range reqs {
 		t.cur = nil
+		t0 := time.Now()
 		f := o.Step(r)
+		if opt.OnStep != nil {
+			opt.OnStep(i, r, t0, time.Now())
+		}
 		if keepResp {
 			res.Resp = append(res.Resp, t.cur)
 		}
@@ -164,7 +186,7 @@ func RunLockstep(addr string, w *model.World, reqs []wire.Req, watchdog time.Dur
 			break
 		}
 	}
-	if !o.Closed {
+	if !o.Closed && !opt.NoFence {
 		t.cur = nil
 		if f := o.Finish(c.CloseWrite); f != nil {
 			res.Fail, res.FailAt = f, len(reqs)
@@ -248,3 +270,52 @@ func CrashCheck(e *Env, p *host.Proc, what string, witness any) bool {
 }
 
 func timeUnix(s int64) time.Time { return time.Unix(s, 0) }
+
+// raceKey summarises a race report by the innermost repository function of each of its two access
+// stacks (line numbers stripped), so that one defect keeps one key from run to run.
+func raceKey(block string) string {
+	var keys []string
+	inAccess := false
+	got := false
+	for _, l := range strings.Split(block, "\n") {
+		t := strings.TrimSpace(l)
+		switch {
+		case strings.HasPrefix(t, "Write at") || strings.HasPrefix(t, "Read at") || strings.HasPrefix(t, "Previous write at") || strings.HasPrefix(t, "Previous read at"):
+			inAccess, got = true, false
+		case strings.HasPrefix(t, "Goroutine ") || t == "":
+			inAccess = false
+		case inAccess && !got && strings.Contains(t, "ps3netsrv-go/") && strings.HasSuffix(t, ")") && !strings.Contains(t, "verifhook"):
+			fn := t[strings.LastIndex(t, "/")+1:]
+			if i := strings.Index(fn, "("); i > 0 {
+				fn = fn[:i]
+			}
+			keys = append(keys, fn)
+			got = true
+		}
+	}
+	if len(keys) == 0 {
+		// no repository frame: name the first frame of the report
+		for _, l := range strings.Split(block, "\n") {
+			t := strings.TrimSpace(l)
+			if strings.HasSuffix(t, ")") && strings.Contains(t, ".") && !strings.HasPrefix(t, "Write") && !strings.HasPrefix(t, "Read") {
+				return "non-repo:" + t
+			}
+		}
+		return "unparsed"
+	}
+	sort.Strings(keys)
+	return strings.Join(keys, " <-> ")
+}
+
+func dedupeRaces(blocks []string) []string {
+	seen := map[string]bool{}
+	var out []string
+	for _, b := range blocks {
+		k := raceKey(b)
+		if !seen[k] {
+			seen[k] = true
+			out = append(out, b)
+		}
+	}
+	return out
+}
